@@ -753,6 +753,12 @@ DIRECTED = {
         "t.go": 'package main\n\nimport "vscratch/NAME/sig"\n\ntype Hub struct {\n\tS struct {\n\t\tsig.Event\n\t\tN int `json:"n"`\n\t}\n}\n\nfunc NewS() struct {\n\tsig.Event\n\tN int `json:"n"`\n} {\n\treturn struct {\n\t\tsig.Event\n\t\tN int `json:"n"`\n\t}{}\n}\n',
         "main.go": 'package main\n\nfunc main() { h := InitHub(); println(h != nil) }\n',
         "wire.go": '//go:build wireinject\n\npackage main\n\nimport "github.com/google/wire"\n\nfunc InitHub() *Hub {\n\twire.Build(NewS, wire.Struct(new(Hub), "*"))\n\treturn nil\n}\n'},
+    # two injectors in one file: the first binds an interface to *Impl, the second needs the concrete *Impl from the same
+    # provider without any binding (state must not leak from one Build list to the next)
+    "bind_then_concrete": {
+        "t.go": 'package main\n\ntype Store interface{ Get() string }\ntype Impl struct{ S string }\n\nfunc (i *Impl) Get() string { return i.S }\nfunc NewImpl() *Impl { return &Impl{S: "impl"} }\n\ntype App struct{ S Store }\n\nfunc NewApp(s Store) *App { return &App{S: s} }\n\ntype Report struct{ I *Impl }\n\nfunc NewReport(i *Impl) *Report { return &Report{I: i} }\n',
+        "main.go": 'package main\n\nfunc main() { println(InitApp().S.Get(), InitReport().I.S) }\n',
+        "wire.go": '//go:build wireinject\n\npackage main\n\nimport "github.com/google/wire"\n\nvar StoreSet = wire.NewSet(NewImpl, wire.Bind(new(Store), new(*Impl)))\n\nfunc InitApp() *App {\n\twire.Build(StoreSet, NewApp)\n\treturn nil\n}\n\nfunc InitReport() *Report {\n\twire.Build(NewImpl, NewReport)\n\treturn nil\n}\n'},
     "interface_value_nested_selector": {
         "streams/streams.go": 'package streams\n\nimport "bytes"\n\nvar Std = struct{ Out *bytes.Buffer }{Out: bytes.NewBufferString("buf")}\n',
         "t.go": 'package main\n\nimport "fmt"\n\ntype App struct{ S string }\n\nfunc NewApp(w fmt.Stringer) *App { return &App{S: w.String()} }\n',
